@@ -228,6 +228,40 @@ def ob_e2_struct(spec=None, s=None):
 ob_e2_struct.engine = "direct"
 
 
+def pairs():
+    """an escape-table sequence immediately followed by a proper suffix of one (overlaps such as 'http://' + 'ttps://')"""
+    protos = [seq for seq, enc in lp.ESCAPE_SEQUENCES if len(seq) >= 3]
+    out = []
+    for a in protos:
+        for b in protos:
+            for i in range(1, len(b) - 1):
+                if (a, b[i:]) not in out:
+                    out.append((a, b[i:]))
+    return out
+
+
+def ob_e2_pair(spec=None, s=None):
+    if s is not None:
+        return check(concrete_ok(s))
+    a, b = pairs()[spec["part"]["pair"]]
+    seq = a + b
+    N = len(seq) + 2
+    CAP = max(3 * N + 4, 12)
+
+    def build(cx):
+        x = S.B(cx, z3.Int("lx"), [z3.Int("x0")])
+        y = S.B(cx, z3.Int("ly"), [z3.Int("y0")])
+        bb = S.concat(S.concat(x, S.B.const(cx, seq)), y)
+        cons = [x.ln >= 0, x.ln <= 1, y.ln >= 0, y.ln <= 1, x.ch[0] >= 0, x.ch[0] < 128, y.ch[0] >= 0, y.ch[0] < 128,
+                z3.Implies(x.ln == 0, x.ch[0] == 0), z3.Implies(y.ln == 0, y.ch[0] == 0)]
+        corpus = [p + seq + q for p in ("", "h", "~") for q in ("", "/", "~")]
+        return dict(b=bb, constraints=cons, corpus=corpus)
+    return _e2(spec, build, N, CAP, "x + %r + %r + y, |x|,|y|<=1" % (a, b))
+
+
+ob_e2_pair.engine = "direct"
+
+
 # ---------------------------------------------------------------- E1: Unicode, list wrappers, encoders
 def _hx(d):
     return chr(48 + d) if d < 10 else chr(55 + d)
@@ -449,6 +483,10 @@ def obligations(tier):
     for i in (range(len(seqs)) if not q else [i for i, x in enumerate(seqs) if x in ("~", "-", "/", " ", "%41", "~X~", "~P", "~H", "~_", "~.", ":/", "%", "~E")]):
         obs.append(Ob("ob_e2_struct", dict(seq=i), timeout=280 if q else 1800,
                       bounds="E2: x + %r + y with |x|,|y|<=1 free ASCII" % seqs[i]))
+    prs = pairs()
+    for i in (range(len(prs)) if not q else [i for i, pr in enumerate(prs) if pr in (("http://", "ttps://"), ("https://", "ttp://"), ("file://", "ile://"))]):
+        obs.append(Ob("ob_e2_pair", dict(pair=i), timeout=280 if q else 3000,
+                      bounds="E2: x + %r + %r + y (an escape sequence followed by a proper suffix of one) with |x|,|y|<=1 free ASCII" % prs[i]))
     obs.append(Ob("ob_unicode", dict(n=0, cls=None), timeout=60, per_path=30, bounds="E1: empty string"))
     for c in range(len(CLASSES)):
         obs.append(Ob("ob_unicode", dict(n=1, cls=c), timeout=280 if q else 1800, per_path=30,
